@@ -20,7 +20,11 @@ def run(ctx):
                       "(OP/STRICT: tag empty; DQ: tag != single quote; DQB: also != backslash)")
     ctx.rule("R01-2", "the argv operand of execve derives from cmd.tokens by iter().map(field 1) with no "
                       "lossy adaptor (filter/skip/take/step_by/rev/dedup/...)")
+    ctx.rule("R01-3", "tokenizer: when a backslash escapes a character that a later pass acts on inside an untagged word "
+                      "($ * ~ { } , & ` !), the escape is remembered (a quote tag is set, or the backslash is kept); "
+                      "otherwise the escaped character is indistinguishable from an unescaped one and is acted on")
     for crate in ctx.crates:
+        escape_rule(ctx, crate)
         res = etag.run_sites(ctx, "R01-1", crate)
         ctx.floor("R01-1", crate, "token-text inspections", len(res), FLOOR_SITES)
         argv_rule(ctx, crate)
@@ -130,3 +134,126 @@ def lossless_from_tokens(crate, body, e, depth=0):
             if bad:
                 return False, "map closure %s rewrites the text with `%s`" % (cpath, bad[0])
     return True, "chain %s over %s" % ("->".join(reversed(names)), mir.render(items[upto][2]))
+
+
+# characters a later pass acts on inside / at the start of an untagged word (pass named per character)
+ESC_T = {"$": "expand_env / $( )", "*": "expand_glob", "~": "expand_home", "{": "expand_brace", "}": "expand_brace",
+         ",": "expand_brace", "&": "background marker when it is the last word", "`": "backquote substitution",
+         "!": "!! history expansion"}
+
+
+def escape_rule(ctx, crate):
+    from ..mir import FactWalker, const_char, const_str, strip_sites
+    b = crate.fn("parsers::parser_line::parse_line")
+    if not ctx.require(b is not None, "R01-3", "R01-3|anchor", "parsers::parser_line::parse_line not found"):
+        return
+    ctx.analysed(b)
+    # the character loop: next() on enumerate(chars(line))
+    loop = None
+    for h, blocks in b.loops().items():
+        for bb in blocks:
+            t = b.term(bb)
+            if t["k"] == "call" and mir.last_seg(b.callee(t)) == "next" and "Enumerate" in b.callee(t):
+                if loop is None or len(blocks) > len(loop[1]):
+                    loop = (h, blocks, bb)
+    if not ctx.require(loop is not None, "R01-3", "R01-3|%s|loop" % b.path, "character loop not found", b.path):
+        return
+    h, blocks, nb = loop
+    nx = strip_sites(b.call_expr(nb))
+    cexpr = mir.fld(1, mir.fld(0, ("downcast", "Some", nx), "0"))
+    # the escape flag: the bool variable set to true under c == '\\'
+    flag = None
+    for bi, si, st in b.stmts():
+        if bi in blocks and st["k"] == "assign" and not st["place"]["p"] and b.locals[st["place"]["l"]]["ty"] == "bool":
+            if mir.const_bool(b.rvalue_expr(st["rv"])) is True:
+                from .c02 import dom_facts
+                for a, v in dom_facts(b, bi, within=blocks):
+                    if a[0] == "bin" and a[1] == "Eq" and v is True and const_char(a[3]) == "\\" and a[2] == cexpr:
+                        flag = ("var", st["place"]["l"], b.names.get(st["place"]["l"]))
+    if not ctx.require(flag is not None, "R01-3", "R01-3|%s|flag" % b.path, "escape flag not identified", b.path):
+        return
+    # the word buffer: the String that receives push(c)
+    pushes_c = {}
+    for bb, t, c in b.calls():
+        if bb in blocks and mir.last_seg(c) == "push" and "String" in c:
+            a = b.call_args(bb)
+            if len(a) == 2 and strip_sites(a[1]) == cexpr:
+                pushes_c[bb] = mir.root_local_expr(a[0])
+    # markings: a tag variable gets a non-empty constant, or a backslash is pushed into the word
+    marks = set()
+    for bb, t, c in b.calls():
+        if bb in blocks and mir.last_seg(c) == "push" and "String" in c:
+            a = b.call_args(bb)
+            if len(a) == 2 and const_char(a[1]) == "\\":
+                marks.add(bb)
+    for bi, si, st in b.stmts():
+        if bi in blocks and st["k"] == "assign" and not st["place"]["p"] and \
+                b.locals[st["place"]["l"]]["ty"] == "std::string::String" and st["place"]["l"] not in pushes_c.values():
+            e = b.expand_vars(strip_sites(b.rvalue_expr(st["rv"])))
+            s_ = const_str(e)
+            if s_ is None:
+                for sub in mir.subexprs(e):
+                    if sub[0] == "call" and mir.last_seg(sub[1]) in ("from", "to_string", "format", "must_use") and sub[2]:
+                        cs = const_str(sub[2][0])
+                        if cs:
+                            s_ = cs
+            if s_:
+                marks.add(bi)
+    back = {(x, y) for x, y in b.back_edges() if y == h}
+    some_t = [tgt for tgt, atom, val in b.switch_edges(b.succs[nb][0]) if val == "Some"]
+    if not ctx.require(bool(some_t) and pushes_c, "R01-3", "R01-3|%s|shape" % b.path, "loop shape not recognised", b.path):
+        return
+    from ..etag import norm_guard
+    for X, who in sorted(ESC_T.items()):
+        w = FactWalker(b, lambda a: True, cut_back_edges=False)
+        bad = []
+
+        def step(bb, st, X=X, w=w, bad=bad):
+            facts, marked, pushed = st
+            if bb in marks:
+                marked = True
+            if bb in pushes_c:
+                pushed = True
+            out = []
+            for nb2, atom, val in w.edges(bb):
+                if nb2 not in blocks:
+                    continue
+                if (bb, nb2) in back:
+                    if pushed and not marked:
+                        bad.append(bb)
+                    continue
+                if atom is not None:
+                    # the character under the cursor is X
+                    if atom[0] == "bin" and atom[1] in ("Eq", "Ne") and atom[2] == cexpr and const_char(atom[3]) is not None:
+                        truth = (const_char(atom[3]) == X) if atom[1] == "Eq" else (const_char(atom[3]) != X)
+                        if truth != val:
+                            continue
+                    # an unquoted word: the current tag is empty
+                    g = norm_guard(atom, val)
+                    if g is not None and g[0] == "is_empty" and g[1][0] == "var" and \
+                            b.locals[g[1][1]]["ty"] == "std::string::String" and g[1][1] not in pushes_c.values():
+                        if g[2] is False and not marked:
+                            # a non-empty tag variable before we set one: quoted context, not ours
+                            continue
+                    if g is not None and g[0] == "eq" and g[3] is True and g[1][0] == "var" and not marked and g[2] in ("'", "\"", "`"):
+                        continue
+                f2 = w.apply_block(bb, facts)
+                if atom is not None:
+                    okc = True
+                    for a2, v2 in f2:
+                        if a2 == atom and not mir._consistent(v2, val):
+                            okc = False
+                    if not okc:
+                        continue
+                    f2 = f2 | {(atom, val)} if atom == flag else f2
+                out.append((nb2, (f2, marked, pushed)))
+            return out
+
+        init = frozenset({(flag, True)})
+        seen = mir.explore(b, some_t[0], (init, False, False), step, limit=400000)
+        ctx.paths_enumerated += len(seen)
+        name = {"`": "backquote", ",": "comma"}.get(X, X)
+        ok = not bad
+        ctx.ob("R01-3", b.path, "escaped %s keeps a trace of the escape (later: %s)" % (X, who), ok,
+               key="R01-3|%s|escape-erased|%s" % (b.path, name), where=b.loc(bad[0]) if bad else "", crate=crate.kind,
+               detail=None if ok else "`\\%s` inside an unquoted word becomes a plain untagged %s, so %s still acts on it" % (X, X, who))
